@@ -31,15 +31,22 @@ def main(argv=None) -> int:
             print(f"  recorded: rule={v['rule']} key={v['key']} {v['file']}:{v['line']} {v['message']}")
     if tier == "thorough" and not os.environ.get("VERIF_REPO"):
         from . import core, selftest
-        st = selftest.run(prop)
+        try:
+            st = selftest.run(prop)
+        except Exception as e:      # evidence about the checker only: never decides the property, never changes the exit status
+            print(f"SELFTEST-ERROR property={prop} the self-test could not be completed: {type(e).__name__}: {str(e)[:200]}")
+            st = {"twin": None, "seeds": [], "benign": [], "seeds_reported": 0, "seeds_total": 0, "benign_silent": 0, "benign_total": 0, "error": f"{type(e).__name__}: {e}"}
         core.EXTRA_EVIDENCE["selftest"] = st
         tw = st.get("twin") or {}
         print(f"SELFTEST property={prop} benign-twin-silent={tw.get('silent')} seeded-changes-reported={st['seeds_reported']}/{st['seeds_total']} benign-refactors-silent={st.get('benign_silent')}/{st.get('benign_total')}")
+        for s_ in st.get("benign", []) + st["seeds"]:
+            if s_.get("timeout"):
+                print(f"SELFTEST-TIMEOUT property={prop} seed={s_['seed']} (not counted)")
         for s_ in st.get("benign", []):
-            if not s_.get("silent"):
+            if not s_.get("silent") and not s_.get("timeout"):
                 print(f"SELFTEST-FALSE-ALARM property={prop} benign={s_['seed']} exit={s_.get('exit')} {s_.get('first', s_.get('note', ''))[:200]}")
         for s_ in st["seeds"]:
-            if not s_.get("reported"):
+            if not s_.get("reported") and not s_.get("timeout"):
                 print(f"SELFTEST-MISS property={prop} seed={s_['seed']} {s_.get('note', '')}")
         if tw and not tw.get("silent"):
             print(f"SELFTEST-FALSE-ALARM property={prop} on the ast.unparse twin: {tw.get('first')}")
